@@ -270,6 +270,34 @@ func TestFixedC07MonitorRequestDefaults(t *testing.T) {
 	}
 }
 
+// TestFixedC07SetOrderOnly: a transaction takes an element out of a set and puts it back
+// (the elements end up in another order) and changes another column: a plain monitor of the
+// set column has nothing to be told; a change of the set's membership is still reported.
+func TestFixedC07SetOrderOnly(t *testing.T) {
+	e := newL2Env(t, c16World(t))
+	e.write(kit.Op{Op: "insert", Table: "T0", UUID: u(1), Row: kit.Row{"marker": kit.Scalar(kit.Str("one")), "tags": kit.SetOf(kit.Str("a"), kit.Str("b"))}})
+	rp, err := kit.DialRaw(e.srv.Sock)
+	if err != nil {
+		t.Fatal(err)
+	}
+	defer rp.Close()
+	var reply json.RawMessage
+	if err := rp.Call("monitor", []interface{}{"DB", "ck", map[string]interface{}{"T0": map[string]interface{}{"columns": []string{"tags"}}}}, &reply); err != nil {
+		t.Fatal(err)
+	}
+	e.write(kit.Op{Op: "mutate", Table: "T0", Where: []kit.Cond{}, Mutations: []kit.Mut{
+		{Col: "tags", Mutator: "delete", Val: kit.SetOf(kit.Str("a"))},
+		{Col: "tags", Mutator: "insert", Val: kit.SetOf(kit.Str("a"))},
+		{Col: "n", Mutator: "+=", Val: kit.Scalar(kit.Int(1))}}})
+	if n := rp.Take(); len(n) != 0 {
+		t.Fatalf("VERIF-FAIL property=C07 class=notify.spurious: a set whose elements only changed their order was reported: %s", n[0].Params[1])
+	}
+	e.write(kit.Op{Op: "mutate", Table: "T0", Where: []kit.Cond{}, Mutations: []kit.Mut{{Col: "tags", Mutator: "insert", Val: kit.SetOf(kit.Str("c"))}}})
+	if n := rp.Take(); len(n) != 1 || !strings.Contains(string(n[0].Params[1]), `"c"`) {
+		t.Fatalf("VERIF-FAIL property=C07 class=notify.count: a new element of the monitored set gave %d notifications", len(n))
+	}
+}
+
 func TestFixedC20EnumNames(t *testing.T) {
 	text := `{"name":"DB","version":"1.0.0","tables":{"T0":{"columns":{
 	 "mode":{"type":{"key":{"type":"string","enum":["set",["802.1q","a b","say \"hi\"","dot1q-tunnel"]]}}},
